@@ -264,13 +264,15 @@ PROPS["C11"] = dict(
     title="the client is safe for concurrent use and its operations are atomic",
     engine="conc",
     quick=[dict(scenario="counter", seeds=2, g=6, n=6), dict(scenario="putonce", seeds=2, g=6, n=4), dict(scenario="mixed", seeds=3, g=5, n=8),
-           dict(scenario="lifecycle", seeds=3, g=5, n=8)],
+           dict(scenario="lifecycle", seeds=3, g=5, n=8), dict(scenario="createrace", seeds=2, g=6, n=8), dict(scenario="createrace", seeds=3, g=8, n=30, race=False), dict(scenario="indexreads", seeds=2, g=5, n=6)],
     thorough=[dict(scenario="counter", seeds=10, g=8, n=10), dict(scenario="putonce", seeds=10, g=8, n=6), dict(scenario="mixed", seeds=40, g=6, n=12),
-              dict(scenario="lifecycle", seeds=40, g=6, n=12)],
+              dict(scenario="lifecycle", seeds=40, g=6, n=12), dict(scenario="createrace", seeds=20, g=8, n=8), dict(scenario="createrace", seeds=20, g=8, n=40, race=False),
+              dict(scenario="indexreads", seeds=20, g=6, n=8)],
     own=[],
     design_ref="DESIGN.md 6 C11",
     level_text="Seeded concurrent histories of both real clients (N concurrent ADD 1; racing attribute_not_exists puts; a random mix of data "
-               "operations; data operations racing with table management, clearing and failure toggles) are recorded under the Go race detector "
+               "operations; data operations racing with table management, clearing and failure toggles; rounds of simultaneous CreateTable calls "
+               "for one name, the winner writing an item; simultaneous Query / Scan through secondary indexes beside a writer) are recorded under the Go race detector "
                "with invocation / return stamps; TLC searches for a linearization of each history against MiniDyn.tla (violation of the invariant "
                "= witness). A data race report, a Go fatal error, a hang, or a history TLC exhausts without witness is a violation. Schedules are "
                "sampled by the Go scheduler, not enumerated (DESIGN.md 7).",
